@@ -56,6 +56,8 @@ type Obligation struct {
 	Status  string // discharged / failed / cover-sat / cover-unsat
 	Axioms  []*Term // quantified axioms of spec functions (used only if the axiom-free query is not unsat)
 	Slow    bool
+	relaxed bool
+	CandidateKind string
 	Candidate string // model of the axiom-free query when the full query is undecided
 }
 
@@ -94,6 +96,10 @@ type Exec struct {
 	typeAxSeen map[*Term]bool
 	qVars      map[*Term]bool
 	loopOrds   map[ast.Node]int
+	dryRun     *FuncInfo
+	readBank   bool
+	pureDepth  int
+	selfFn     *FuncInfo
 }
 
 func NewExec(pr *Program) *Exec {
